@@ -49,7 +49,10 @@ Definition step (classify : N -> cls) (s : tstate) (i : nat) (c : N) : tstate + 
             | _ :: _ => inl (set_cur s1 (update (cur s) c i None))
             | [] => inl {| qc := []; take := 0; cur := fresh; out := cur s :: out s |}
             end
-          else inl s1
+          else match qrest with
+               | _ :: _ => inl s1
+               | [] => inl (set_cur s1 fresh)       (* an empty quoted region leaves nothing behind *)
+               end
         else if c =? q then inl (set_qc (set_cur s (update (cur s) c i None)) qrest)
         else
           let push := if ((c =? cBT) || (c =? cLP) || (c =? cLS) || (c =? cDQ) || (c =? cSQ)) && ((q =? cRB) || (q =? cRP) || (q =? cRS))
